@@ -143,7 +143,6 @@ def repo_tests_validate(res, node='tests/test_logic.py::TestWorld'):
     import json
     import os
     import subprocess
-    from concurrent.futures import ThreadPoolExecutor
     from .. import tracecheck, tla, replay as _rp
     if _rp.REPLAY is not None:
         return
@@ -156,33 +155,61 @@ def repo_tests_validate(res, node='tests/test_logic.py::TestWorld'):
     recs = json.load(open(out))
     usable = [r for r in recs if not r['unsupported'] and r['events'] and r['constants']]
 
-    def one(k):
-        r = usable[k]
-        C = r['constants']
-        K = base(Acts={'create', 'create2', 'add', 'remove', 'delete', 'process', 'clear', 'toggle', 'proc', 'ghost'},
-                 Ids=set(C['Ids']), MaxAuto=C['MaxAuto'], Types=set(C['Types']), Bases={t: set(b) for t, b in C['Bases'].items()},
-                 Comps=set(C['Comps']), TypeOf=C['TypeOf'], Decl={c: set(d) for c, d in C['Decl'].items()},
-                 Procs=set(C['Procs']), PTypes=set(C['PTypes']), PBases={t: set(b) for t, b in C['PBases'].items()},
-                 PTypeOf=C['PTypeOf'], PDefault=C['PDefault'], PDecl={c: set(d) for c, d in C['PDecl'].items()},
-                 Prios=set(C['Prios']), Dts=set(C['Dts']), MaxQ=1000)
-        gen = 'WorldTrace_repo%d' % k
-        defs, consts, ov = [], {}, {}
-        for kk, v in K.items():
-            if kk.startswith('_'):
-                continue
-            if isinstance(v, (bool, int)):
-                consts[kk] = tla.to_tla(v)
-            else:
-                defs.append('K_%s == %s' % (kk, tla.to_tla(v)))
-                ov[kk] = 'K_' + kk
-        with open(os.path.join(res.specdir, gen + '.tla'), 'w') as f:
-            f.write('---- MODULE %s ----\nEXTENDS WorldTrace\n%s\n====\n' % (gen, '\n'.join(defs)))
-        return tracecheck.validate(res, gen, 'repo-test-%d' % k, [{'events': r['events']}], consts, overrides=ov,
-                                   invariants=INVARIANTS, shards=1)
+    # one TLC run for all tests: instance / class / processor names get a per-test prefix, the constants are the union
+    def pre(k, n):
+        return 't%d_%s' % (k, n)
 
-    with ThreadPoolExecutor(8) as ex:
-        results = list(ex.map(one, range(len(usable))))
-    bad = [(usable[k]['test'], rej[0][1]) for k, rej in enumerate(results) if rej]
+    U = dict(Ids=set(), MaxAuto=1, Types=set(), Bases={}, Comps=set(), TypeOf={}, Decl={}, Procs=set(), PTypes=set(), PBases={},
+             PTypeOf={}, PDefault={}, PDecl={}, Prios=set(), Dts=set())
+    traces = []
+    for k, r in enumerate(usable):
+        C = r['constants']
+        U['Ids'] |= set(C['Ids'])
+        U['MaxAuto'] = max(U['MaxAuto'], C['MaxAuto'])
+        U['Prios'] |= set(C['Prios'])
+        U['Dts'] |= set(C['Dts'])
+        # classes are shared by the tests (the helpers module): only instances get the per-test prefix
+        for t in C['Types']:
+            U['Types'].add(t)
+            U['Bases'][t] = U['Bases'].get(t, set()) | set(C['Bases'].get(t, []))
+        for c in C['Comps']:
+            U['Comps'].add(pre(k, c))
+            U['TypeOf'][pre(k, c)] = C['TypeOf'][c]
+            U['Decl'][pre(k, c)] = set(C['Decl'][c])
+        for t in C['PTypes']:
+            U['PTypes'].add(t)
+            U['PBases'][t] = U['PBases'].get(t, set()) | set(C['PBases'].get(t, []))
+            if U['PDefault'].get(t, C['PDefault'][t]) != C['PDefault'][t]:
+                raise common.MachineryError('processor class %s has different default priorities in different tests' % t)
+            U['PDefault'][t] = C['PDefault'][t]
+        for c in C['Procs']:
+            U['Procs'].add(pre(k, c))
+            U['PTypeOf'][pre(k, c)] = C['PTypeOf'][c]
+            U['PDecl'][pre(k, c)] = set(C['PDecl'][c])
+        names = set(C['Comps']) | set(C['Procs'])
+
+        def ren(v):
+            if isinstance(v, str) and v in names:
+                return pre(k, v)
+            if isinstance(v, list):
+                return [ren(x) for x in v]
+            return v
+        traces.append({'events': [{kk: ren(vv) for kk, vv in e.items()} for e in r['events']]})
+    K = base(Acts={'create', 'create2', 'add', 'remove', 'delete', 'process', 'clear', 'toggle', 'proc', 'ghost'}, MaxQ=1000, **U)
+    gen = 'WorldTrace_repo'
+    defs, consts, ov = [], {}, {}
+    for kk, v in K.items():
+        if kk.startswith('_'):
+            continue
+        if isinstance(v, (bool, int)):
+            consts[kk] = tla.to_tla(v)
+        else:
+            defs.append('K_%s == %s' % (kk, tla.to_tla(v)))
+            ov[kk] = 'K_' + kk
+    with open(os.path.join(res.specdir, gen + '.tla'), 'w') as f:
+        f.write('---- MODULE %s ----\nEXTENDS WorldTrace\n%s\n====\n' % (gen, '\n'.join(defs)))
+    rej = tracecheck.validate(res, gen, 'repo-tests', traces, consts, overrides=ov, invariants=INVARIANTS, shards=2)
+    bad = [(usable[idx]['test'], at) for idx, at in rej]
     res.traces += len(usable) - len(bad)
     res.cov.setdefault('trace_validation', {})['repository-tests'] = {
         'node': node, 'pytest_tail': p.stdout.strip().split('\n')[-1], 'tests_recorded': len(usable),
